@@ -76,6 +76,17 @@ INVALID = [
     'def exp { splitters: uid return "A" weighted 1, "B" weighted 1 /* forgot to close }',
     'def exp { splitters: uid /* open return "A" weighted 1 }',
 ]
+N_OWN_INVALID = len(INVALID)
+
+
+def _more_invalid():
+    # the whole catalogue of texts outside the grammar that C06 keeps (each rejected by the reference recogniser)
+    from . import c06
+
+    return [t for t in c06.FIXED if t not in INVALID]
+
+
+INVALID += _more_invalid()
 # grammatical texts whose generated code does not compile today (known finding K1): whatever happens, a recompile that
 # raises must change nothing, one that succeeds must switch completely
 MAYBE = [
@@ -493,6 +504,15 @@ def every_text_fixed():
                        ["recompile", 1, ti], ["call", 1, 3]]}
 
 
+def every_invalid_fixed():
+    """every text of the invalid catalogue handed to recompile() (twice, the second time through a recycled object id) on a live
+    evaluator: it raises, and the evaluator still answers for the text it held"""
+    for ii in range(len(INVALID)):
+        held = [0, 4, 2][ii % 3]
+        yield {"ops": [["new", held], ["call", 0, ii % 4], ["recompile_invalid", 0, ii], ["call", 0, (ii + 1) % 4], ["recompile_invalid", 0, ii, True], ["recompile_same", 0],
+                       ["call", 0, (ii + 2) % 4]]}
+
+
 def fixed_neighbours(chunk=6, only=None):
     """EVERY neighbour pair (whitespace / comment look-alikes / case / normal forms inside strings, ==-equal literals of another
     type, same spelling as another token type, weak-fingerprint twins: same length and Adler-32 / byte sum / CRC-32 ...) of three
@@ -512,7 +532,7 @@ def fixed_neighbours(chunk=6, only=None):
 
 def run(ctx, rec):
     if ctx.shard == 0:
-        runner.direct_run(ctx, rec, "fixed-histories", FIXED + list(more_fixed()) + list(every_text_fixed()), judge)
+        runner.direct_run(ctx, rec, "fixed-histories", FIXED + list(more_fixed()) + list(every_text_fixed()) + list(every_invalid_fixed()), judge)
         if rec.violations:
             return
         runner.direct_run(ctx, rec, "all-neighbours-of-fixed-programs", fixed_neighbours(), judge_neighbours)
